@@ -1,6 +1,6 @@
 #!/bin/bash
 # tools/mutest.sh <patch.diff> <Cnn> [extra check args]: apply a seeded change to /repo, run one check, undo the change.
-P=$1; C=$2; shift 2
+P=$(readlink -f "$1"); C=$2; shift 2
 [ -z "$(git -C /repo status --porcelain)" ] || { echo "/repo not clean"; exit 2; }
 git -C /repo apply --3way "$P" 2>/dev/null || git -C /repo apply "$P" || patch -d /repo -p1 --no-backup-if-mismatch < "$P" || { echo "patch does not apply"; git -C /repo reset -q --hard HEAD; git -C /repo clean -fdq; exit 2; }
 /verif/check "$C" "$@"; rc=$?
